@@ -165,6 +165,16 @@ fn run(cfg: &RunCfg) -> Report {
             })
         })
     });
+    // configuration boundaries: every type count x vendor-set count, one request per command
+    if !small || cfg.shard == 0 {
+        let mut srng = cfg.rng("c11-cfgsweep");
+        let mut n = 0u64;
+        crate::mon::cfgsweep::for_each(&mut srng, !small, &mut |ctx, c, x| {
+            n += 1;
+            check(ctx, c, x, 64 + (x.len() % 3) * 90, n, &mut rep);
+        });
+        rep.class("configuration-boundary-sweep");
+    }
     // marathon: 70 000 EID-changing assignments on ONE context, decode vs process judged on every
     // step (state that counts accepted requests in 16 bits wraps here)
     if !small && cfg.shard == 3 % cfg.nshards {
